@@ -57,7 +57,7 @@ func collectSlots(v any, depth int, out *[]slot) {
 var HostileKeys = []string{"a.a", "x.x", "", "a.b", "default", "example", "x-ext", "$ref", "items", "properties", "0", "é", "a b", "paths", "allOf", "X-Internal-Id", "x", "X-", "xx-y"}
 
 // MutateKinds lists the structural edits of Mutate.
-var MutateKinds = []string{"delete", "retype", "null", "rename", "transplant", "duplicate", "retarget-ref", "ref-with-sibling", "hostile-name", "string-case", "blank-string", "plant-value", "self-ref-definition", "respell-duplicate-number", "key-case", "mixed-duplicate"}
+var MutateKinds = []string{"delete", "retype", "null", "rename", "transplant", "duplicate", "retarget-ref", "ref-with-sibling", "hostile-name", "string-case", "blank-string", "plant-value", "self-ref-definition", "respell-duplicate-number", "key-case", "mixed-duplicate", "null-member"}
 
 // Mutate applies one structural edit to a decoded document (in place) and returns
 // the kind of edit and the depth at which it landed (0 = a top-level member); ok is
@@ -137,6 +137,32 @@ func Mutate(t *rapid.T, doc map[string]any) (kind string, depth int, ok bool) {
 		}
 		c.set(up)
 		return kind, c.deep, true
+	case "null-member":
+		// an object gets one more member, unknown to any schema, whose value is null (or, one time in four, false)
+		var objSlots []slot
+		for _, c := range slots {
+			if _, isObj := c.get().(map[string]any); isObj {
+				objSlots = append(objSlots, c)
+			}
+		}
+		var target map[string]any
+		depth := 0
+		if len(objSlots) == 0 || UniformIndex(t, 8, "nullattop") == 0 {
+			target = doc
+		} else {
+			c := PickUniform(t, objSlots, "nullmemberslot")
+			target, depth = c.get().(map[string]any), c.deep+1
+		}
+		nk := PickUniform(t, []string{"termsOfServices", "extra", "zz", "Description", "nullable"}, "nullmembername")
+		if _, exists := target[nk]; exists {
+			return kind, depth, false
+		}
+		if UniformIndex(t, 4, "nullorfalse") == 0 {
+			target[nk] = false
+		} else {
+			target[nk] = nil
+		}
+		return kind, depth, true
 	case "key-case":
 		// the same member name in another case: names of the Swagger schema (and its ^x- pattern) are case-sensitive
 		var keySlots []slot
